@@ -337,4 +337,3 @@ func (p *Prog) expectedPrefix(tn string, st stateAssume) (int64, bool) {
 	}
 	return 0, false
 }
-
